@@ -114,6 +114,7 @@ Proof.
       * rewrite sget_sset_other by assumption. exists r1. auto 10.
     + intros prop s0 k row s2 [I0 K0] E0. apply share_step_frame in E0. destruct E0 as (u & p & _ & h & _).
       split; [eapply (idx_inv_ext s0); eauto|]. intros k0 r0 G0. destruct (K0 k0 r0 G0) as (r1 & G1 & Rest). exists r1. rewrite u. auto.
+  - apply keeps_refl; reflexivity.
 Qed.
 
 (* ---- the index-bijection defect: a witness history ---- *)
@@ -209,6 +210,7 @@ Proof.
       destruct H0 as (U & ->). apply upd_sa_frame in U. destruct U as (u & _). simpl. rewrite u.
       apply allv_sset; [exact L0|]. exact (allv_sget _ _ _ _ L0 G).
     + intros prop s0 k row s2 L0 E0. apply share_step_frame in E0. destruct E0 as (u & _). rewrite u. exact L0.
+  - exact L.
 Qed.
 
 Lemma run_lst ops : forall s, idx_inv s -> lst_only s -> hist_ok s ops = true -> forallb lst_op ops = true -> lst_only (run ops s).
